@@ -1080,7 +1080,9 @@ func checkReplay2(prog *SX, seed uint64) (what string, nontrivial bool, isD2 boo
 	{
 		in5 := newInterp(prog, false)
 		var e5 rapid.VerifErr
-		runTB(func() { e5 = rapid.VerifCheckOnce(rapid.VerifNewT(newRecTB("c04log"), rapid.VerifRandStream(seed, false), true), in5.prop) })
+		runTB(func() {
+			e5 = rapid.VerifCheckOnce(rapid.VerifNewT(newRecTB("c04log"), rapid.VerifRandStream(seed, false), true), in5.prop)
+		})
 		d5 := ""
 		if len(in5.invs) > 0 {
 			d5 = strings.Join(in5.invs[0].vals, ";")
